@@ -19,9 +19,46 @@ import (
 
 type guardInfo struct {
 	typ      *types.Named
-	fields   []int
-	mutex    int
+	fields   [][]int // field paths (nested structs allowed: private.obsSequence)
+	ftypes   []types.Type
+	mutex    []int // field path of the mutex
 	typeName string
+}
+
+// fieldPath resolves a dotted field name inside a struct type.
+func fieldPath(t types.Type, dotted string) ([]int, types.Type, bool) {
+	var path []int
+	for _, name := range strings.Split(dotted, ".") {
+		st, ok := t.Underlying().(*types.Struct)
+		if !ok {
+			return nil, nil, false
+		}
+		found := false
+		for i := 0; i < st.NumFields(); i++ {
+			if st.Field(i).Name() == name {
+				path = append(path, i)
+				t = st.Field(i).Type()
+				found = true
+				break
+			}
+		}
+		if !found {
+			return nil, nil, false
+		}
+	}
+	return path, t, true
+}
+
+func pathHasPrefix(p []pathStep, pre []int) bool {
+	if len(p) < len(pre) {
+		return false
+	}
+	for i := range pre {
+		if p[i].Field != pre[i] {
+			return false
+		}
+	}
+	return true
 }
 
 func (e *Engine) guardsFor(t types.Type) []guardInfo {
@@ -41,22 +78,20 @@ func (e *Engine) guardsFor(t types.Type) []guardInfo {
 			if g.Type != n.Obj().Name() {
 				continue
 			}
-			gi := guardInfo{typ: n, typeName: g.Type, mutex: -1}
-			st, ok := n.Underlying().(*types.Struct)
-			if !ok {
+			gi := guardInfo{typ: n, typeName: g.Type}
+			if _, ok := n.Underlying().(*types.Struct); !ok {
 				continue
 			}
-			for i := 0; i < st.NumFields(); i++ {
-				if st.Field(i).Name() == g.Mutex {
-					gi.mutex = i
-				}
-				for _, f := range g.Fields {
-					if st.Field(i).Name() == f {
-						gi.fields = append(gi.fields, i)
-					}
+			if mp, _, ok := fieldPath(n, g.Mutex); ok {
+				gi.mutex = mp
+			}
+			for _, f := range g.Fields {
+				if fp, ft, ok := fieldPath(n, f); ok {
+					gi.fields = append(gi.fields, fp)
+					gi.ftypes = append(gi.ftypes, ft)
 				}
 			}
-			if gi.mutex >= 0 {
+			if gi.mutex != nil {
 				out = append(out, gi)
 			}
 		}
@@ -64,8 +99,8 @@ func (e *Engine) guardsFor(t types.Type) []guardInfo {
 	return out
 }
 
-func mutexKey(ref *Term, typeName string, field int) string {
-	return fmt.Sprintf("%s|%s|%d", ref.Key(), typeName, field)
+func mutexKey(ref *Term, typeName string, field []int) string {
+	return fmt.Sprintf("%s|%s|%v", ref.Key(), typeName, field)
 }
 
 // guardOfLoc: if l addresses a guarded field (or something inside it) returns the mutex key.
@@ -75,7 +110,7 @@ func (e *Engine) guardOfLoc(l *Loc) (string, bool) {
 	}
 	for _, g := range e.guardsFor(l.Base) {
 		for _, f := range g.fields {
-			if l.Path[0].Field == f {
+			if pathHasPrefix(l.Path, f) {
 				return mutexKey(l.Ref, g.typeName, g.mutex), true
 			}
 		}
@@ -114,6 +149,22 @@ func (e *Engine) noteGuardedValue(st *State, l *Loc, v Val) {
 		}
 		st.guardedRefs[m.Ref.Key()] = mk
 	}
+	if sl, ok := v.(VSlice); ok {
+		// the backing array of a guarded slice is guarded state as well
+		if st.guardedRefs == nil {
+			st.guardedRefs = map[string]string{}
+		}
+		st.guardedRefs["slice:"+sl.Obj.Key()] = mk
+	}
+}
+
+// guardedArrayWrite: obj is the backing array of a slice read from a guarded field while its mutex is write-held.
+func (e *Engine) guardedArrayWrite(st *State, obj *Term) bool {
+	if st.guardedRefs == nil {
+		return false
+	}
+	mk, ok := st.guardedRefs["slice:"+obj.Key()]
+	return ok && st.locks[mk] == "W"
 }
 
 func (e *Engine) lockCheckMap(st *State, fr *Frame, mv ssa.Value, write bool, in ssa.Instruction) {
@@ -136,18 +187,33 @@ func (e *Engine) lockCheckMap(st *State, fr *Frame, mv ssa.Value, write bool, in
 
 // havocGuarded forgets everything about the fields guarded by the mutex of object ref.
 func (e *Engine) havocGuarded(st *State, ref *Term, g guardInfo) {
-	stt := g.typ.Underlying().(*types.Struct)
-	for _, f := range g.fields {
-		l := &Loc{Kind: LHeap, Ref: ref, Base: g.typ, Path: []pathStep{{Field: f}}}
+	for fi, f := range g.fields {
+		var ps []pathStep
+		for _, k := range f {
+			ps = append(ps, pathStep{Field: k})
+		}
+		l := &Loc{Kind: LHeap, Ref: ref, Base: g.typ, Path: ps}
 		// the base type used for heap naming must be the same type the code uses (possibly instantiated):
-		ft := stt.Field(f).Type()
-		v := e.freshVal(st, ft, "guarded_"+stt.Field(f).Name())
+		ft := g.ftypes[fi]
+		if _, t2, ok := fieldPathIdx(g.typ, f); ok {
+			ft = t2
+		}
+		v := e.freshVal(st, ft, fmt.Sprintf("guarded_%v", f))
 		if m, ok := v.(VMap); ok {
 			st.assume(Gt(m.Ref, Zero)) // lock invariant: the guarded map is never nil
 			if st.guardedRefs == nil {
 				st.guardedRefs = map[string]string{}
 			}
 			st.guardedRefs[m.Ref.Key()] = mutexKey(ref, g.typeName, g.mutex)
+			// the map may be the same object as before, mutated in place: its contents are forgotten too
+			pn, vns := mapHeapNames(m.K, m.V)
+			ph := e.heap(st, pn, HeapB)
+			e.setHeap(st, pn, Store(ph, m.Ref, e.fresh("guarded_present", RowB)))
+			for i, lf := range leavesOf(m.V) {
+				hs := heapSort(lf.sort, true)
+				vh := e.heap(st, vns[i], hs)
+				e.setHeap(st, vns[i], Store(vh, m.Ref, e.fresh("guarded_val", ArrS(IntS, lf.sort))))
+			}
 		}
 		e.store(st, l, v)
 	}
@@ -169,12 +235,12 @@ func (e *Engine) lockIntrinsic(st *State, fr *Frame, x *ssa.Call, name string, a
 		return false
 	}
 	p, ok := args[0].(VPtr)
-	if !ok || p.L == nil || p.L.Kind != LHeap || len(p.L.Path) != 1 {
+	if !ok || p.L == nil || p.L.Kind != LHeap || len(p.L.Path) < 1 {
 		panic(unsupported("mutex that is not a field of a heap object"))
 	}
 	var g *guardInfo
 	for _, gi := range e.guardsFor(p.L.Base) {
-		if gi.mutex == p.L.Path[0].Field {
+		if len(gi.mutex) == len(p.L.Path) && pathHasPrefix(p.L.Path, gi.mutex) {
 			gi := gi
 			g = &gi
 		}
@@ -278,4 +344,16 @@ func (e *Engine) lockAtReturn(st *State, fn *ssa.Function, spec *FuncSpec, ctx *
 		}
 		e.obligeNoAssume(st, "atomic", lbl, -1, ac.evalBool(a.E), "atomic effect (linearization point in the last critical section): "+a.Text)
 	}
+}
+
+// fieldPathIdx: the type at an index path inside a (possibly instantiated) struct type.
+func fieldPathIdx(t types.Type, path []int) ([]int, types.Type, bool) {
+	for _, k := range path {
+		st, ok := t.Underlying().(*types.Struct)
+		if !ok || k >= st.NumFields() {
+			return nil, nil, false
+		}
+		t = st.Field(k).Type()
+	}
+	return path, t, true
 }
